@@ -672,7 +672,7 @@ func (db *ContractDB) compile(cl *Clause, pkg *packages.Package, resolve nameRes
 		pos = file.Decls[len(file.Decls)-1].End()
 	}
 	if err := types.CheckExpr(db.fset, pkg.Types, pos, we, info); err != nil {
-		if strings.Contains(err.Error(), "undefined:") {
+		if strings.Contains(err.Error(), "undefined:") || strings.Contains(err.Error(), "has no field or method") {
 			cl.err = fmt.Errorf("%s %s: clause %q names something the code no longer has (%v)", staleMark, cl.Line, truncate(cl.Text, 120), err)
 			return cl.err
 		}
